@@ -598,6 +598,30 @@ func checkReaderDelivery(w *World, r *Report, a *remoteAnchors, rule string) {
 			}
 		}
 	}
+	{
+		okS := false
+		for i, in := range g.ins {
+			ia, isIA := in.(*ssa.IndexAddr)
+			if !isIA || !strings.HasSuffix(w.pathOf(ia.X), ".Senders") {
+				continue
+			}
+			for _, f := range g.FactsAt(i) {
+				b, isB := f.Cond.(*ssa.BinOp)
+				if !isB {
+					continue
+				}
+				x, y := w.pathOf(b.X), w.pathOf(b.Y)
+				if x == "len("+w.pathOf(ia.X)+")" && y == "K:0" {
+					switch {
+					case (b.Op == token.GTR || b.Op == token.NEQ) && f.Val, (b.Op == token.EQL || b.Op == token.LEQ) && !f.Val:
+						okS = true
+					}
+				}
+			}
+		}
+		r.Check(okS, rule, fname(R)+":sender-iff-table", "the sender is read from Senders exactly when the envelope carries senders, and is nil otherwise", site,
+			"the sender table is consulted on the wrong edge of len(Senders) > 0: messages lose their sender, or a sender-less envelope ends the stream")
+	}
 	r.Check(ok, rule, fname(R)+":delivers", "SendLocal(Targets[TargetIndex], Deserialize(Data, TypeNames[TypeNameIndex]), Senders[SenderIndex] or nil), one plain call per message", site, detail)
 }
 
@@ -1108,6 +1132,19 @@ func checkC17(w *World, r *Report) {
 			args: []string{"P0.engine", "P0.routerPID", "lit:RemoteUnreachableEvent{ListenAddr=P0.writeToAddr}"}, why: "The router is not told that this address is unreachable: it keeps the dead writer."})
 		w.checkRow(r, row{rule: "C17.R3", fn: a.wShutdown, callee: w.evBroadcast("actor", "RemoteUnreachableEvent"), name: "BroadcastEvent(RemoteUnreachableEvent)",
 			args: []string{"P0.engine", "lit:RemoteUnreachableEvent{ListenAddr=P0.writeToAddr}"}, why: "Subscribers (and the cluster provider) never learn that the peer is unreachable."})
+		{
+			_, nonNil := w.nilEdges(hg, "P0.stream")
+			okNil := true
+			for i, in := range hg.ins {
+				if c := callOf(in); c != nil && c.IsInvoke() && w.pathOf(c.Value) == "P0.stream" {
+					if len(nonNil) == 0 || !hg.OnlyVia(nonNil, i) {
+						okNil = false
+					}
+				}
+			}
+			r.Check(okNil, "C17.R3", fname(a.wShutdown)+":stream-nil-guard", "Shutdown touches the stream only if one was opened (it is nil when the dial failed)", hs,
+				"Shutdown calls a method on the nil stream when the peer could not be reached: the unreachable path panics inside the router's Receive")
+		}
 		okStop := hg.AfterEntry(w.Nodes(hg, EvInvoke("Inboxer.Stop", w.IfaceMethod("actor", "Inboxer", "Stop")), true))
 		r.Check(okStop, "C17.R3", fname(a.wShutdown)+":stops-inbox", "Shutdown stops the writer's inbox on every path", hs, "the dead writer keeps consuming")
 		okRem := false
@@ -1339,6 +1376,27 @@ func checkC17(w *World, r *Report) {
 				}
 				if pg.OnlyVia(peq[runningK], x) && p != "P0.stopWg" {
 					ok2, detail2 = false, "the running edge of Stop returns "+p+" instead of the listener's WaitGroup"
+				}
+			}
+		}
+		if ok2 {
+			sig := make([]bool, len(pg.ins))
+			for i, in := range pg.ins {
+				switch x := in.(type) {
+				case *ssa.Send:
+					if w.pathOf(x.Chan) == "P0.stopCh" {
+						sig[i] = true
+					}
+				case *ssa.Call:
+					if args, isC := isBuiltinCall(x, "close"); isC && w.pathOf(args[0]) == "P0.stopCh" {
+						sig[i] = true
+					}
+				}
+			}
+			rr := reachFromEdges(pg, peq[runningK], sig)
+			for _, x := range pg.returns {
+				if rr[x] {
+					ok2, detail2 = false, "on the running edge Stop can return without signalling stopCh: the listener keeps accepting connections and Stop().Wait() never returns"
 				}
 			}
 		}
